@@ -28,8 +28,10 @@ PINNED_SINGLE = {
     "fresh_op": "<=",
 }
 PINNED_LRU = {
-    "lines": [[483, "clk"], [487, "iter"], [491, "del"], [494, "in"], [496, "move"], [497, "get"],
-              [500, "call"], [501, "store"], [504, "len"], [505, "pop"]],
+    "lines": [[487, "clk"], [490, "lock1"], [492, "iter"], [498, "del"], [501, "in"], [503, "move"], [504, "get"],
+              [507, "call"], [509, "lock2"], [510, "store"], [513, "len"], [514, "pop"]],
+    "locked": [["lock1", ["iter", "del", "in", "move", "get"]], ["lock2", ["store", "len", "pop"]]],
+    "lock_kind": "RLock",
     "expire_op": ">",
     "pop_last": False,
     "result_index": [1, 1],
@@ -38,7 +40,7 @@ PINNED_LRU = {
 
 PINNED_GLUE = {
     "single": ["guard:func is None", "forward:valid_for_seconds", "cache:per-function", "init:no-entry", "return:wrapper"],
-    "lru": ["guard:func is None", "forward:max_size", "forward:valid_for_seconds", "cache:per-function", "init:no-entry", "return:wrapper"],
+    "lru": ["guard:func is None", "forward:max_size", "forward:valid_for_seconds", "cache:per-function", "lock:per-function", "init:no-entry", "return:wrapper"],
 }
 PINNED_SITES = [
     {"module": "orso.dataframe", "qualname": "DataFrame.column_names", "decorator": "single_item_cache", "form": "bare", "others": ["property"], "nested": False},
@@ -209,7 +211,44 @@ def lru(src):
     expire_op = pop_last = None
     res_idx = [None, None]
     time_var = result_var = key_var = key_form = None
-    for s in w.body:
+    # `with lock:` blocks (lock = a threading lock created next to the cache, in the decorator's
+    # scope): the `with` line is a step of its own (acquire when entered, release when the block
+    # is left: CPython attributes the call of __exit__ to the `with` line), the statements of
+    # the block follow in source order; `locked` records which shared-state lines each block guards.
+    outer = src.func("lru_cache_with_expiry")
+    lock_names = {}
+    for n in outer.body:
+        if (isinstance(n, (ast.Assign, ast.AnnAssign)) and isinstance(n.value, ast.Call)
+                and isinstance(n.value.func, ast.Attribute) and n.value.func.attr in ("Lock", "RLock")
+                and _is_name(n.value.func.value, "threading")):
+            t = n.targets[0] if isinstance(n, ast.Assign) else n.target
+            if _is_name(t):
+                lock_names[t.id] = n.value.func.attr
+    locked = []
+    lock_kinds = set()
+    body = []
+
+    def flatten(stmts, inside):
+        for s in stmts:
+            if isinstance(s, ast.With):
+                if inside is not None or len(s.items) != 1 or s.items[0].optional_vars is not None or not _is_name(s.items[0].context_expr):
+                    raise KeyError("with statement shape at line %d" % s.lineno)
+                nm = s.items[0].context_expr.id
+                if nm not in lock_names:
+                    raise KeyError("with statement on something that is not a lock of the decorator's scope")
+                lock_kinds.add(lock_names[nm])
+                kind = "lock%d" % (len(locked) + 1)
+                locked.append([kind, []])
+                body.append((("with", kind, s.lineno), None))
+                flatten(s.body, locked[-1][1])
+            else:
+                body.append((s, inside))
+
+    flatten(w.body, None)
+    for s, inside in body:
+        if isinstance(s, tuple):
+            lines.append([s[2], s[1]])
+            continue
         if isinstance(s, (ast.Nonlocal, ast.Expr)) and not (isinstance(s, ast.Expr) and isinstance(s.value, ast.Call)):
             continue
         if isinstance(s, ast.Assign) and len(s.targets) == 1:
@@ -300,7 +339,23 @@ def lru(src):
             raise KeyError("unrecognised statement at line %d" % s.lineno)
     if expire_op is None or pop_last is None or None in res_idx or key_form is None:
         raise KeyError("incomplete lru wrapper")
-    return {"lines": lines, "expire_op": expire_op, "pop_last": bool(pop_last), "result_index": res_idx, "key_form": key_form}
+    # which lock block guards which step line: by source position (a step line belongs to the
+    # innermost `with` whose span contains it)
+    spans = []
+    for n in ast.walk(w):
+        if isinstance(n, ast.With):
+            spans.append((n.lineno, n.end_lineno))
+    spans.sort()
+    for ln, kind in lines:
+        if kind.startswith("lock"):
+            continue
+        for (a, b), blk in zip(spans, locked):
+            if a < ln <= b:
+                blk[1].append(kind)
+    if len(lock_kinds) > 1:
+        raise KeyError("two kinds of lock")
+    return {"lines": lines, "expire_op": expire_op, "pop_last": bool(pop_last), "result_index": res_idx, "key_form": key_form,
+            "locked": locked, "lock_kind": (sorted(lock_kinds) or ["none"])[0]}
 
 
 def glue(src, outer):
@@ -334,7 +389,14 @@ def glue(src, outer):
                 out.append((i, b.value))
         return out
 
+    def is_lock(b):
+        t = b.targets[0] if isinstance(b, ast.Assign) and len(b.targets) == 1 else (b.target if isinstance(b, ast.AnnAssign) else None)
+        v = getattr(b, "value", None)
+        return (t is not None and _is_name(t) and isinstance(v, ast.Call) and not v.args and not v.keywords
+                and ast.unparse(v.func) in ("threading.Lock", "threading.RLock"))
+
     facts = []
+    lock_fact = None
     if any(b is w for b in body):
         # shape A
         g = body[0]
@@ -363,9 +425,11 @@ def glue(src, outer):
         widx = [i for i, b in enumerate(rest) if b is w][0]
         if len(ca) != 1 or ca[0][0] > widx:
             raise KeyError("where the cache is created")
-        if any(not (b is w or (i == ca[0][0]) or isinstance(b, ast.Return)) for i, b in enumerate(rest)):
+        if any(not (b is w or (i == ca[0][0]) or isinstance(b, ast.Return) or (is_lock(b) and i < widx)) for i, b in enumerate(rest)):
             raise KeyError("other statements in the decorator")
         facts.append("cache:per-function")
+        if any(is_lock(b) for b in rest):
+            lock_fact = "lock:per-function"
         init = ca[0][1]
         ret = [b for b in rest if isinstance(b, ast.Return)]
     else:
@@ -377,6 +441,11 @@ def glue(src, outer):
         if [a.arg for a in dec.args.args] != [fvar] or dec.args.vararg or dec.args.kwarg or dec.args.kwonlyargs:
             raise KeyError("signature of the inner decorator")
         others = [b for b in body if b is not dec]
+        if any(is_lock(b) for b in others):
+            lock_fact = "lock:outer-scope"   # one lock for every function the configured decorator is applied to: still mutual exclusion
+            others = [b for b in others if not is_lock(b)]
+        elif any(is_lock(b) for b in dec.body):
+            lock_fact = "lock:per-function"
         ca_outer, ca_inner = cache_assign(others), cache_assign(dec.body)
         disp = [b for i, b in enumerate(others) if i not in [i for i, _ in ca_outer]]
         texts = [ast.unparse(b) for b in disp]
@@ -400,6 +469,8 @@ def glue(src, outer):
         else:
             raise KeyError("where the cache is created")
         ret = [b for b in dec.body if isinstance(b, ast.Return)]
+    if lock_fact is not None:
+        facts.append(lock_fact)
     facts.append("init:" + _init_kind(init, w))
     if len(ret) != 1 or ret[0].value is None:
         raise KeyError("what the decorator returns")
@@ -434,9 +505,13 @@ def _init_kind(init, w):
     raise KeyError("initial cache value")
 
 
-def use_sites():
+FUNCTOOLS_CACHES = ("lru_cache", "cache", "cached_property")
+
+
+def use_sites(DECORATORS=DECORATORS):
     """Every `def` in the orso package decorated with one of the two cache decorators (bare, called, through an import alias,
-    or through a module-level name bound to a configured decorator)."""
+    or through a module-level name bound to a configured decorator).  With DECORATORS extended by FUNCTOOLS_CACHES the
+    functools caches are listed too."""
     root = os.path.join(core.REPO, "orso")
     out = []
     for dp, dns, fns in os.walk(root):
@@ -490,6 +565,45 @@ def use_sites():
     return out
 
 
+PINNED_SITE_FACTS = [
+    {"name": "orso.dataframe.DataFrame.column_names", "decorator": "single_item_cache", "arity": 1, "is_property": True,
+     "receiver_defines_eq": False, "receiver_defines_hash": True, "reads_self_state": ["_schema"]},
+    {"name": "orso.dataframe.DataFrame.columncount", "decorator": "single_item_cache", "arity": 1, "is_property": True,
+     "receiver_defines_eq": False, "receiver_defines_hash": True, "reads_self_state": ["_schema"]},
+]
+
+
+def site_facts(sites):
+    """Per decorated use site (orso's two caches and the functools caches, whole package): key arity (parameters incl. self),
+    whether the receiver class defines __eq__ / __hash__ (no __eq__: `(self,) == (self,)` is identity), and which attributes
+    of self the wrapped body reads (state the result depends on and that can change while the receiver stays the same object)."""
+    out = []
+    for st in sites:
+        rel = st["module"].replace(".", "/") + ".py"
+        tree = Src(rel).tree
+        if tree is None:
+            tree = Src(st["module"].replace(".", "/") + "/__init__.py").tree
+        parts = st["qualname"].split(".")
+        scope, cls = tree, None
+        for nm in parts:
+            nxt = [n for n in scope.body if isinstance(n, (ast.ClassDef, ast.FunctionDef)) and n.name == nm]
+            if not nxt:
+                raise KeyError("use site " + st["qualname"])
+            if isinstance(nxt[0], ast.ClassDef):
+                cls = nxt[0]
+            scope = nxt[-1] if isinstance(nxt[-1], ast.ClassDef) else nxt[0]
+        fn = scope
+        a = fn.args
+        arity = len(a.posonlyargs) + len(a.args) + len(a.kwonlyargs)
+        first = (a.posonlyargs + a.args)[0].arg if (a.posonlyargs + a.args) else None
+        reads = sorted({n.attr for n in ast.walk(fn) if isinstance(n, ast.Attribute) and _is_name(n.value, first)}) if cls is not None and first else []
+        defs = {b.name for b in cls.body if isinstance(b, ast.FunctionDef)} if cls is not None else set()
+        out.append({"name": st["module"] + "." + st["qualname"], "decorator": st["decorator"], "arity": arity,
+                    "varargs": bool(a.vararg or a.kwarg), "is_property": "property" in st.get("others", []),
+                    "receiver_defines_eq": "__eq__" in defs, "receiver_defines_hash": "__hash__" in defs, "reads_self_state": reads})
+    return out
+
+
 def generate(o):
     src = Src("orso/tools.py")
     s = o.item("c19.single", lambda: single(src), PINNED_SINGLE)
@@ -514,6 +628,11 @@ def generate(o):
     text += "def singleFreshOp : String := %s\n" % lean_str(s["fresh_op"])
     text += "/-- lru_cache_with_expiry wrapper: kinds of the source lines that touch shared state, in source order -/\n"
     text += "def lruLines : List String := %s\n" % lean_list([k for _, k in l["lines"]], lean_str)
+    text += "/-- the `with lock:` blocks of the LRU wrapper: which shared-state lines each one guards (the `with` line itself is the acquire step and, when the block is left, the release step) -/\n"
+    text += "def lruLocked : List (String × List String) := %s\n" % lean_list(
+        l.get("locked", []), lambda b: "(%s, %s)" % (lean_str(b[0]), lean_list(b[1], lean_str)))
+    text += "/-- the kind of lock (`threading.RLock` / `threading.Lock`), \"none\" when the wrapper takes no lock -/\n"
+    text += "def lruLockKind : String := %s\n" % lean_str(l.get("lock_kind", "none"))
     text += "/-- comparison operator of the expiry sweep `current_time - timestamp <op> valid_for_seconds` (deleted when true) -/\n"
     text += "def lruExpireOp : String := %s\n" % lean_str(l["expire_op"])
     text += "/-- the `last=` argument of `cache.popitem` -/\n"
@@ -526,5 +645,12 @@ def generate(o):
     text += "def singleGlue : List String := %s\n" % lean_list(gs, lean_str)
     text += "/-- the same for lru_cache_with_expiry -/\n"
     text += "def lruGlue : List String := %s\n" % lean_list(gl, lean_str)
+    facts = o.item("c19.site_facts", lambda: site_facts(use_sites(DECORATORS + FUNCTOOLS_CACHES)), PINNED_SITE_FACTS)
+    b = lambda v: "true" if v else "false"
+    text += "/-- one decorated use site of a cache in the orso package -/\n"
+    text += "structure Site where\n  name : String\n  decorator : String\n  arity : Nat\n  isProperty : Bool\n  receiverDefinesEq : Bool\n  receiverDefinesHash : Bool\n  readsSelfState : List String\n  deriving Repr, DecidableEq\n"
+    text += "/-- every decorated use site found by parsing orso/**/*.py (the decorators' own definitions excluded) -/\n"
+    text += "def useSites : List Site := %s\n" % lean_list(facts, lambda f: "{ name := %s, decorator := %s, arity := %d, isProperty := %s, receiverDefinesEq := %s, receiverDefinesHash := %s, readsSelfState := %s }" % (
+        lean_str(f["name"]), lean_str(f["decorator"]), f["arity"], b(f["is_property"]), b(f["receiver_defines_eq"]), b(f["receiver_defines_hash"]), lean_list(f["reads_self_state"], lean_str)))
     text += "end Gen.Cache\n"
     o.files["Cache.lean"] = text
